@@ -1212,6 +1212,10 @@ class Storm:
             backlogged = done < ncmd
         if stalled:
             self.bad("storm:stalled-by-slow-reader", stalled)
+        elif self.r.random() < 0.4:
+            # now and then the slow one stays away for a good while longer (7 s in all): what it is owed waits for it
+            time.sleep(max(0.0, 7.0 - (time.monotonic() - t0)))
+            self.classes.add(("stall-long", kind))
         # now the slow one reads: every command's reply, in command order (the last 366/323 of command j names #none<j>
         # only in NAMES; LIST ends with 323)
         try:
